@@ -347,6 +347,9 @@ def check_kernels(field, fns=None, timeout=None):
                 s_ = solvers[k]; s_.set('timeout', int(cap))
                 s_.push(); s_.add(extra); s_.add(goal_neg)
                 t1 = time.time(); r = s_.check()
+                if os.environ.get('DV_FIAT_RLIMIT'):
+                    try: print(f'  [rl] {name} {r} {time.time() - t1:.1f}s rlimit={dict((k, v) for k, v in s_.statistics())["rlimit count"]}', file=sys.stderr, flush=True)
+                    except Exception as e_: print('  [rl] n/a', e_, file=sys.stderr)
                 if os.environ.get('DV_FIAT_DEBUG') or (os.environ.get('DV_TIMING') and time.time() - t1 > 40): print(f'  [q] {name} attempt {k} seed {sd}: {r} {time.time() - t1:.1f}s  goal={str(goal_neg)[:60]!r}', file=sys.stderr, flush=True)
                 if r == z3.sat:
                     m_ = s_.model()
